@@ -200,14 +200,8 @@ UNIT = {
           # R2: the deref coercion Stream<I> -> StreamInfo<I> (stream.rs:195 `impl Deref for Stream`, body `&self.info`) made explicit
           {'rule': 'R2', 'find': 'self.inner.filters.as_slice()', 'replace': 'self.inner.info.filters.as_slice()'},
           # R7: the split position (exact source text; the helper in the template has this very body)
-          {'rule': 'R7', 'find': """filters.iter().rposition(|f| match f {
-                    StreamFilter::ASCIIHexDecode => false,
-                    StreamFilter::ASCII85Decode => false,
-                    StreamFilter::LZWDecode(_) => false,
-                    StreamFilter::RunLengthDecode => false,
-                    StreamFilter::Crypt => true,
-                    _ => true
-                }).unwrap_or(filters.len())""", 'replace': 'hoist_image_split(filters)'},
+          {'rule': 'R7', 'regex': r'let end = (?:filters\.iter\(\)\.rposition\(.*?\)\.unwrap_or\(filters\.len\(\)\)|match filters\.last\(\) \{.*?\});',
+           'replace': 'let end = hoist_image_split(filters);'},
           {'rule': 'R7', 'find': 'filters.split_at(end)', 'replace': 'hoist_split_at(filters, end)'},
           {'rule': 'R7', 'find': 'file_range.clone()', 'replace': 'hoist_range_clone(file_range)'},
           {'rule': 'R1', 'find': 'let data = resolve.get_data_or_decode(', 'replace': 'proof { lemma_prefix_of_prefix(filters@, end as int); } let data = resolve.get_data_or_decode('},
